@@ -28,7 +28,7 @@ def spStatsOpt (cfg : SWCfg) (c : Col) (es : PageEntries) : Option (List (Nat ×
 
 /-- `PageHeader.Read` on the spec writer's header, with the statistics named -/
 theorem decPHdr_spHdr_stats (cfg : SWCfg) (c : Col) (es : PageEntries) (u z : Nat) :
-    decPHdr (spHdr cfg c es u z) = some (spPH u z es.length (spStatsOpt cfg c es)) := by
+    decPHdr (spHdr cfg c es u z) = some (spPH u z es.length (cfg.defLabel c) (cfg.repLabel c) (spStatsOpt cfg c es)) := by
   cases hs : cfg.withStats <;> cases he : cfg.withExtras
   · simp [decPHdr, spHdr, spDph, spStats, spExtra, hs, he, spPH, spStatsOpt, TVal.fieldsOf, getI32, getStruct, List.lookup]
   · simp [decPHdr, spHdr, spDph, spStats, spExtra, extraField, hs, he, spPH, spStatsOpt, TVal.fieldsOf, getI32, getStruct, List.lookup]
@@ -36,9 +36,11 @@ theorem decPHdr_spHdr_stats (cfg : SWCfg) (c : Col) (es : PageEntries) (u z : Na
   · simp [decPHdr, spHdr, spDph, spStats, spExtra, extraField, hs, he, spPH, spStatsOpt, TVal.fieldsOf, getI32, getStruct, List.lookup, statsT_eq]
 
 /-- the decoded header of the page holding `es`, written with the choices `cs`: uncompressed length,
-stored length, `num_values`, statistics -/
+stored length, `num_values`, the labels of the level encodings (`SWCfg.defLabel`, `SWCfg.repLabel`: RLE, or
+BIT_PACKED for levels the column does not have when `cfg.mrLabels`), statistics -/
 def spPageHdr (cfg : SWCfg) (c : Col) (codec : Nat) (compress : Bytes → Bytes) (cs : Choices) (es : PageEntries) : PHdr :=
-  spPH (spRaw cfg c cs es).length (spComp codec compress (spRaw cfg c cs es)).length es.length (spStatsOpt cfg c es)
+  spPH (spRaw cfg c cs es).length (spComp codec compress (spRaw cfg c cs es)).length es.length (cfg.defLabel c) (cfg.repLabel c)
+    (spStatsOpt cfg c es)
 
 /-- one turn of the loop of `PageHeadersAtOffset` on a page of the spec writer -/
 theorem pageHeadersAt_go_spStep (cfg : SWCfg) (c : Col) (codec : Nat) (compress : Bytes → Bytes) (cs : Choices)
@@ -57,9 +59,11 @@ theorem pageHeadersAt_go_spStep (cfg : SWCfg) (c : Col) (codec : Nat) (compress 
   simp only [spPage] at h1 ⊢
   simp only [h1, h2]
   have hc : (spPH (spRaw cfg c cs es).length (spComp codec compress (spRaw cfg c cs es)).length es.length
-      (spStatsOpt cfg c es)).compressed = (((spComp codec compress (spRaw cfg c cs es)).length : Nat) : Int) := rfl
+      (cfg.defLabel c) (cfg.repLabel c) (spStatsOpt cfg c es)).compressed =
+        (((spComp codec compress (spRaw cfg c cs es)).length : Nat) : Int) := rfl
   have hd : (spPH (spRaw cfg c cs es).length (spComp codec compress (spRaw cfg c cs es)).length es.length
-      (spStatsOpt cfg c es)).dph = some (((es.length : Nat) : Int), 0, 3, 3, spStatsOpt cfg c es) := rfl
+      (cfg.defLabel c) (cfg.repLabel c) (spStatsOpt cfg c es)).dph =
+        some (((es.length : Nat) : Int), 0, ((cfg.defLabel c : Nat) : Int), ((cfg.repLabel c : Nat) : Int), spStatsOpt cfg c es) := rfl
   rw [hc, if_neg (by omega)]
   simp only [hd, spPageHdr]
   congr 1
@@ -542,7 +546,9 @@ thrift fields, any `file_offset` mode, row groups without records anywhere in th
   `num_rows`; per column one `ColumnChunk` with the codec, `num_values`, sizes and `data_page_offset` of the
   chunk);
 * `PageHeaders` on that footer returns exactly one header per page the writer emitted, in file order
-  (`spFileHdrs`), each `spPH rawLen storedLen num_values statistics` of its page (`spPageHdr`);
+  (`spFileHdrs`), each `spPH rawLen storedLen num_values defLabel repLabel statistics` of its page
+  (`spPageHdr`; the level-encoding labels are RLE = 3, or — for the levels a column does not have, when
+  `cfg.mrLabels` — BIT_PACKED = 4, as parquet-mr writes them: `SWCfg.defLabel`, `SWCfg.repLabel`);
 * per `ColumnChunk` of the footer (`ChunkListed`): a chunk without bytes has no pages and is skipped; for
   any other, `PageHeadersAtOffset` at its `data_page_offset` returns the headers of exactly the chunk's pages
   when asked for the chunk's `num_values`, and the first of them when asked for 0.
@@ -625,9 +631,11 @@ theorem spChunkMetaAt_md (cfg : SWCfg) (compress : Nat → Bytes → Bytes) (rec
   refine ⟨_, rfl, rfl, rfl, rfl, ?_, rfl, rfl⟩
   simp only [List.flatMap_def, List.length_flatten]
 
-/-- a header of the spec writer's page says: `num_values`, stored size, uncompressed size, statistics -/
+/-- a header of the spec writer's page says: `num_values`, PLAIN values, the level-encoding labels, stored size,
+uncompressed size, statistics -/
 theorem hdrFacts_spPageHdr (cfg : SWCfg) (c : Col) (codec : Nat) (compress : Bytes → Bytes) (cs : Choices) (es : PageEntries) :
-    (spPageHdr cfg c codec compress cs es).dph = some (((es.length : Nat) : Int), 0, 3, 3, spStatsOpt cfg c es) ∧
+    (spPageHdr cfg c codec compress cs es).dph =
+      some (((es.length : Nat) : Int), 0, ((cfg.defLabel c : Nat) : Int), ((cfg.repLabel c : Nat) : Int), spStatsOpt cfg c es) ∧
     (spPageHdr cfg c codec compress cs es).uncompressed = (((spRaw cfg c cs es).length : Nat) : Int) ∧
     (spPageHdr cfg c codec compress cs es).compressed = (((spPage cfg c codec compress cs es).2.length : Nat) : Int) :=
   ⟨rfl, rfl, rfl⟩
@@ -751,6 +759,64 @@ example : (match readMetaData (specWrite fiCfg fiComp none fiCs [[], []]) with
       | .ok hs => some (fmd.rowGroups.length, hs.length)
       | .error _ => none)
     | .error _ => none) = some (2, 0) := by
+  decide +kernel
+
+/-! ### parquet-mr style labels: a required, an optional and a repeated column, `mrLabels := true` -/
+
+private def fiMrCols : List Col :=
+  [{ path := ["a"], reps := [.req], ty := .i32 }, { path := ["b"], reps := [.opt], ty := .i32 },
+   { path := ["c"], reps := [.rpt], ty := .i32 }]
+private def fiMrCfg : SWCfg :=
+  { cols := fiMrCols, codecs := [0, 1, 2], withStats := true, withExtras := true, padv := 3, mrLabels := true }
+/-- record `k`: `a = k`; `b = k` for even `k`, null for odd `k`; `c = [k, k + 256]` for even `k`, `[]` for odd `k` -/
+private def fiMrRec (k : Nat) : Rec :=
+  [[{ rep := 0, dl := 0, val := some [k, 0, 0, 0] }],
+   if k % 2 = 0 then [{ rep := 0, dl := 1, val := some [k, 0, 0, 0] }] else [{ rep := 0, dl := 0, val := none }],
+   if k % 2 = 0 then [{ rep := 0, dl := 1, val := some [k, 0, 0, 0] }, { rep := 1, dl := 1, val := some [k, 1, 0, 0] }]
+   else [{ rep := 0, dl := 0, val := none }]]
+private def fiMrGroups : List (List Rec) := [[fiMrRec 1, fiMrRec 2], [fiMrRec 4]]
+/-- `num_values` and the three encoding ids: values, definition levels, repetition levels -/
+private def fiEncs (h : PHdr) : Option (Int × Int × Int × Int) := h.dph.map fun d => (d.1, d.2.1, d.2.2.1, d.2.2.2.1)
+
+private theorem fiMr_hx : ∀ x ∈ fiMrCols.zipIdx,
+    x = (⟨["a"], [.req], .i32⟩, 0) ∨ x = (⟨["b"], [.opt], .i32⟩, 1) ∨ x = (⟨["c"], [.rpt], .i32⟩, 2) := by
+  intro x hx; simpa [fiMrCols] using hx
+
+private theorem fiMr_recs : ∀ rg ∈ fiMrGroups, ∀ r ∈ rg, ∀ x ∈ fiMrCfg.cols.zipIdx, RecColOK x.1 (r.getD x.2 []) := by
+  intro rg hrg r hr x hx
+  have hrg' : rg = [fiMrRec 1, fiMrRec 2] ∨ rg = [fiMrRec 4] := by simpa [fiMrGroups] using hrg
+  rcases hrg' with rfl | rfl
+  · have hr' : r = fiMrRec 1 ∨ r = fiMrRec 2 := by simpa using hr
+    rcases fiMr_hx x hx with rfl | rfl | rfl <;> rcases hr' with rfl | rfl <;>
+      exact ⟨⟨_, _, rfl, rfl, by simp⟩, by decide, by decide⟩
+  · have hr' : r = fiMrRec 4 := by simpa using hr
+    subst hr'
+    rcases fiMr_hx x hx with rfl | rfl | rfl <;> exact ⟨⟨_, _, rfl, rfl, by simp⟩, by decide, by decide⟩
+
+/-- **the theorem applied to a file with parquet-mr style labels**: `PageHeaders` lists, per page, the labels as
+they stand in the file — BIT_PACKED (4) for both level encodings of the required column `a`, for the
+repetition-level encoding of the optional column `b`, RLE (3) throughout for the repeated column `c` -/
+example : ∃ fmd hs, readMetaData (specWrite fiMrCfg fiComp none fiCs fiMrGroups) = .ok fmd ∧
+    fmd.numRows = 3 ∧ fmd.rowGroups.map (·.numRows) = [2, 1] ∧
+    pageHeaders (specWrite fiMrCfg fiComp none fiCs fiMrGroups) fmd = .ok hs ∧
+    hs.map fiEncs = (spFileHdrs fiMrCfg fiComp fiMrGroups fiCs).map fiEncs ∧
+    (spFileHdrss fiMrCfg fiComp fiMrGroups fiCs).map (·.map fiEncs) =
+      [[some (2, 0, 4, 4)], [some (1, 0, 3, 4), some (1, 0, 3, 4)], [some (3, 0, 3, 3)],
+       [some (1, 0, 4, 4)], [some (1, 0, 3, 4)], [some (2, 0, 3, 3)]] := by
+  obtain ⟨fmd, sd, h1, ⟨_, h2⟩, h3, _⟩ := introspection_specWrite fiMrCfg fiComp fiCs fiMrGroups fiMr_recs (by decide +kernel)
+  refine ⟨fmd, _, h1, ?_, ?_, h3, rfl, ?_⟩
+  · rw [h2]; rfl
+  · rw [h2]; simp only [spFMD, spRGMetas_numRows]; rfl
+  · decide +kernel
+
+/-- the same by kernel evaluation of the writer model and the models of the calls alone -/
+example : (match readMetaData (specWrite fiMrCfg fiComp none fiCs fiMrGroups) with
+    | .ok fmd => (match pageHeaders (specWrite fiMrCfg fiComp none fiCs fiMrGroups) fmd with
+      | .ok hs => some (hs.map fiEncs)
+      | .error _ => none)
+    | .error _ => none) =
+    some [some (2, 0, 4, 4), some (1, 0, 3, 4), some (1, 0, 3, 4), some (3, 0, 3, 3),
+          some (1, 0, 4, 4), some (1, 0, 3, 4), some (2, 0, 3, 3)] := by
   decide +kernel
 
 end NonVacuity
